@@ -41,12 +41,37 @@ def representations(key):
     return reps
 
 
+def aliasing(ctx, label, key, want):
+    """A key imported from a JWK dict is independent of that dict object afterwards: changing or re-using the caller's
+    dict (a template re-filled for the next key) changes neither the thumbprint nor the automatic kid."""
+    from joserfc.jwk import KeySet
+    cls = type(key)
+    src = key.as_dict(private=True) if key.is_private else key.as_dict()
+    src.pop("kid", None)
+    k = cls.import_key(src)
+    before = k.thumbprint()
+    member = {"oct": "k", "RSA": "n", "EC": "x", "OKP": "x"}[key.key_type]
+    src[member] = "AAAA" + src[member][4:]
+    src["kid"] = "changed-by-caller"
+    src["use"] = "enc"
+    after = k.thumbprint()
+    ctx.count("aliasing", label, True, "same" if before == after == want else "changed")
+    if not (before == after == want):
+        ctx.report("the thumbprint of an imported key changed when the caller modified the JWK dict it was imported from",
+                   {"key": label, "before": before, "after": after, "expected": want}, f"alias:thumbprint:{key.key_type}")
+    k.ensure_kid()
+    if k.kid != want:
+        ctx.report("the automatic kid of an imported key is not its thumbprint after the caller modified the source dict",
+                   {"key": label, "kid": k.kid, "expected": want}, f"alias:kid:{key.key_type}")
+
+
 def run(ctx):
     from joserfc.jwk import KeySet, JWKRegistry
     pop = KC.population(ctx)
     lines, impls = [], []
     for label, key in pop:
         want = KC.ref_thumbprint(KC.native_of(key))
+        aliasing(ctx, label, key, want)
         for rname, k in representations(key):
             ctx.count("thumbprint", (label, rname), True, f"{key.key_type}:{rname}")
             got = k.thumbprint()
